@@ -564,12 +564,14 @@ class BrownianInterval(brownian_base.BaseBrownian, _Interval):
         # Set the global increment and space-time Levy area
         generator = np.random.SeedSequence(entropy=entropy, pool_size=pool_size)
         initial_W_seed, initial_H_seed, top_a_seed = generator.generate_state(3, dtype=np.uint64)
+        # (The variances are those of the interval this node covers, which is [round(t0), round(t1)] when `tol > 0`;
+        # the bridges further down the tree are scaled by the same, rounded, end points.)
         if W is None:
-            W = self._randn(initial_W_seed) * math.sqrt(t1 - t0)
+            W = self._randn(initial_W_seed) * math.sqrt(self._end - self._start)
         else:
             _assert_floating_tensor('W', W)
         if H is None:
-            H = self._randn(initial_H_seed) * math.sqrt((t1 - t0) / 12)
+            H = self._randn(initial_H_seed) * math.sqrt((self._end - self._start) / 12)
         else:
             _assert_floating_tensor('H', H)
         self._w_h = (W, H)
